@@ -238,3 +238,74 @@ func ZZRoundTrip() {
 		vrt.Assert(false, "reader delivered an unexpected message type")
 	}
 }
+
+// zzQueuedPieces counts the piece messages waiting in the write queue.
+func zzQueuedPieces(p *PeerWriter) int {
+	n := 0
+	for e := p.writeQueue.Front(); e != nil; e = e.Next() {
+		if _, ok := e.Value.(Piece); ok {
+			n++
+		}
+	}
+	return n
+}
+
+// ZZWriterQueueCap: the real Run loop and message writer on a connection that
+// accepts a frame only when the harness lets it (slow peer). Every sequence of
+// 5 operations - queue an upload (distinct requests), cancel a request (queued,
+// already written, or never made), choke, let the connection take one frame -
+// with a limit of 1..2 queued requests per peer: the number of queued piece
+// messages never exceeds the limit, the writer's counter equals the number of
+// piece messages actually queued (never negative), and every piece frame that
+// reaches the wire answers a request that was queued and not cancelled.
+//
+//vrt:cover ZZWriterQueueCap request refused at the limit
+//vrt:cover ZZWriterQueueCap cancel of a request that is not queued
+//vrt:cover ZZWriterQueueCap cancel of a queued request
+func ZZWriterQueueCap() { zzWriterQueueCap(5) }
+
+// ZZWriterQueueCap6: 6 operations.
+func ZZWriterQueueCap6() { zzWriterQueueCap(6) }
+
+func zzWriterQueueCap(steps int) {
+	conn := &vrt.Conn{Written: make(chan struct{})}
+	limit := vrt.Choice("max_queued_requests", 2) + 1
+	fast := vrt.Bool("fast_extension")
+	p := New(conn, logger.New("zz"), limit, fast, nil)
+	go p.Run()
+	vrt.Yield()
+	data := vrt.MemFile{Data: make([]byte, 64)}
+	next := uint32(0)
+	for step := 0; step < steps; step++ {
+		switch vrt.Choice("operation", 4) {
+		case 0:
+			full := zzQueuedPieces(p) >= limit
+			vrt.Cover(full, "request refused at the limit")
+			p.SendPiece(peerprotocol.RequestMessage{Index: next, Begin: 0, Length: 16}, &data)
+			next++
+		case 1:
+			i := uint32(vrt.Choice("cancelled_request", steps))
+			queued := false
+			for e := p.writeQueue.Front(); e != nil; e = e.Next() {
+				if pi, ok := e.Value.(Piece); ok && pi.Index == i {
+					queued = true
+				}
+			}
+			vrt.Cover(!queued, "cancel of a request that is not queued")
+			vrt.Cover(queued, "cancel of a queued request")
+			p.CancelRequest(peerprotocol.CancelMessage{RequestMessage: peerprotocol.RequestMessage{Index: i, Begin: 0, Length: 16}})
+		case 2:
+			p.SendMessage(peerprotocol.ChokeMessage{})
+		case 3:
+			select {
+			case <-conn.Written:
+			default:
+			}
+		}
+		vrt.Yield()
+		q := zzQueuedPieces(p)
+		vrt.Assert(q <= limit, "more upload requests queued for one peer than the configured maximum")
+		vrt.Assert(p.currentQueuedRequests >= 0, "queued request counter went negative")
+		vrt.Assert(p.currentQueuedRequests == q, "queued request counter differs from the piece messages actually queued")
+	}
+}
